@@ -299,6 +299,10 @@ func runC18(r *Report, rng *rand.Rand, thorough bool) {
 			req.AddCookie(&http.Cookie{Name: "sid", Value: "s1"})
 			cks = append(cks, [2]string{"sid", "s1"})
 		}
+		if rng.Intn(2) == 0 { // a cookie of the name the cookie provider uses, with another value (stale key, key rotation)
+			req.AddCookie(&http.Cookie{Name: "auth", Value: "stale"})
+			cks = append(cks, [2]string{"auth", "stale"})
+		}
 		cred := creds[rng.Intn(len(creds))]
 		var prov interface {
 			Intercept(context.Context, *http.Request) error
